@@ -70,6 +70,10 @@ impl BBSplusSignature {
         let e = Scalar::from_bytes_be(&data[G1Projective::COMPRESSED_BYTES..Self::BYTES])
             .map_err(|_| Error::InvalidSignature)?;
 
+        if A == G1Projective::IDENTITY || e == Scalar::ZERO {
+            return Err(Error::InvalidSignature);
+        }
+
         Ok(Self { A, e })
     }
 }
